@@ -211,6 +211,19 @@ func (rt *recorder) RoundTrip(req *http.Request) (*http.Response, error) {
 	rt.mu.Unlock()
 	return resp, err
 }
+
+// timedOut reports whether a round trip of the forwarder ended in its own client timeout (10 s) or a cancelled
+// context: on an overloaded machine that is not an answer of the ingesting server, and whatever follows from
+// it (the forwarder trying again, a second dispatch) says nothing about the property.
+func timedOut(recs []recReq) bool {
+	for _, q := range recs {
+		if q.Status == 0 && (strings.Contains(q.Err, "Client.Timeout") || strings.Contains(q.Err, "deadline exceeded") || strings.Contains(q.Err, "request canceled")) {
+			return true
+		}
+	}
+	return false
+}
+
 func (rt *recorder) reset() {
 	rt.mu.Lock()
 	rt.reqs = nil
@@ -737,8 +750,12 @@ func (c *checker) valid(tc *tcase) *recReq {
 		r.Inconclusive("forwarder-flush-watchdog:" + tc.Cfg + ":" + shape)
 		return nil
 	}
-	r.Eval(1)
 	reqs := g.rec.snapshot()
+	if timedOut(reqs) {
+		r.Inconclusive("forwarder-client-timeout")
+		return nil
+	}
+	r.Eval(1)
 	maps, events := g.cap.snapshot()
 	wantPath := "/v2/raw"
 	if tc.Kind == "event" {
